@@ -127,6 +127,12 @@ def gen_case(ctx, i, thorough=False):
             "mode": "simulator" if rng.random() < 0.25 else "direct", "normform": rng.randrange(4)}
     if case["mode"] == "simulator" and nseg > 1 and rng.random() < 0.6:
         case["peek"] = rng.randrange(1, nseg)  # an intermediate result is taken and read after this many segments
+    if case["mode"] == "simulator" and rng.random() < 0.35:
+        # the segments are the steps of ONE protocol run; a step names only the parameters that change with it
+        case["via_protocol"] = True
+        case.pop("peek", None)
+    if case["mode"] == "simulator" and rng.random() < 0.15:
+        case["fails_after"] = True  # after the result was taken the next integration FAILS
     # malformed results: the wrong number of snapshots / an unknown parameter name / no segment at all
     r = rng.random()
     if r < 0.03:
@@ -217,6 +223,7 @@ def _len(f):
 
 _OWNER: dict = {}   # id(result) -> what the producer of the result does when it goes on
 _MID: dict = {}     # id(model) -> the intermediate result taken by a `peek` case
+_AFTER: dict = {}   # id(model) -> what the simulator says after a failed integration (`fails_after` cases)
 
 
 def build_simulation(case):
@@ -251,6 +258,9 @@ def build_simulation(case):
                 pass
 
             def _next(self):
+                if state.get("fail"):
+                    from mxlpy.types import IntegrationFailure
+                    return Result(IntegrationFailure())
                 times, vals = script[state["n"]]
                 state["n"] += 1
                 return Result(TimeCourse(time=np.array(times, dtype=float), values=np.array(vals, dtype=float)))
@@ -266,6 +276,19 @@ def build_simulation(case):
 
         sim = Simulator(m, integrator=Scripted)
         mid = None
+        if case.get("via_protocol"):
+            from mxlpy import make_protocol
+            cur = {k: _f(v) for k, v in m.get_parameter_values().items()}
+            steps = []
+            for s in segs:
+                named = {k: _f(v) for k, v in s["pars"] if cur.get(k) != _f(v)}
+                if not named and s["pars"]:
+                    k0, v0 = s["pars"][0]
+                    named = {k0: _f(v0)}  # a step has to name something
+                cur.update(named)
+                steps.append((1000.0, named))
+            sim.simulate_protocol(make_protocol(steps))
+            segs = []  # the loop below has nothing left to do
         for i, s in enumerate(segs):
             if case.get("peek") == i:
                 # an intermediate result, read while the simulation is not over yet (fills its lazily computed tables)
@@ -277,6 +300,17 @@ def build_simulation(case):
             # "end time larger than the previous end" check
             sim.simulate_time_course([_f(s["rows"][-1][0]) + 1000.0])
         res = sim.get_result().unwrap_or_err()
+        if case.get("fails_after"):
+            # the next integration fails: the simulator then has no result any more and ignores further calls; the
+            # result that was handed out before stays what it was
+            nseg_before = len(res.raw_variables)
+            state["fail"] = True
+            sim.simulate_time_course([1e6])
+            state["fail"] = False
+            script.append(([2e6, 3e6], [script[-1][1][-1]] * 2))
+            sim.simulate_time_course([4e6])  # ignored
+            _AFTER[id(m)] = {"get_result": type(sim.get_result().value).__name__, "segments_of_earlier_result": len(res.raw_variables),
+                             "segments_before": nseg_before}
 
         def go_on():
             # the simulator simulates one more (scripted) segment after the result was handed out
@@ -371,6 +405,9 @@ def _real_worker(case):
             out["recorded"] = {"rows": rec, "pars": recp}
     for ev in case["events"]:
         out["events"].append(run_event(sim, m, ev, case.get("normform", 0)))
+    after = _AFTER.pop(id(m), None)
+    if after is not None:
+        out["after_failure"] = after
     mid = _MID.pop(id(m), None)
     if mid is not None:
         # the intermediate result, read again now that the simulation went on: still the segments it was taken with
@@ -771,6 +808,14 @@ def judge_case(ctx, case, R, M, S, L, shrink=True):
     ctx.count({k: case[k] for k in ("content", "segs", "events")}, shape_of(case))
     if "recorded" in R:
         ctx.violation(case, R["recorded"], "Simulator recorded other states / parameters than were produced / in force")
+    if "after_failure" in R:
+        ctx.hist["fails_after"] = ctx.hist.get("fails_after", 0) + 1
+        n = R["after_failure"]["segments_before"]
+        ctx.judge({**case, "check": "failed-integration-after-the-result"}, R["after_failure"],
+                  {"get_result": "IntegrationFailure", "segments_of_earlier_result": n, "segments_before": n}, None,
+                  what="after a failed integration the simulator reports the failure; the result taken before keeps its segments")
+    if case.get("via_protocol"):
+        ctx.hist["via_protocol"] = ctx.hist.get("via_protocol", 0) + 1
     if "mid" in R:
         # an intermediate result taken after `peek` segments and read before the simulation went on: it is a record of
         # those segments, whatever the simulator did afterwards
@@ -795,7 +840,8 @@ def judge_case(ctx, case, R, M, S, L, shrink=True):
             s = S[i]
         finding = None
         if ev[0] in ("prod", "cons") and ev[2] and not bad and o.has_dynamic_coef(ev[1]):
-            finding = F_SCALED_DYN
+            # the class of the former finding F-C10-2 (repaired: rows are scaled by the coefficient at the row)
+            ctx.hist["scaled-with-dynamic-coefficient"] = ctx.hist.get("scaled-with-dynamic-coefficient", 0) + 1
         verdict_case = _sub(case, i)
         if (json.dumps(r, sort_keys=True) != json.dumps(s, sort_keys=True) and shrink and len(ctx.violations) < 3
                 and not (finding and finding in ctx.known)):
